@@ -176,7 +176,7 @@ def polygon_triangulate(tri_idx, *args):
     return triangles
 
 
-def make_quad_mesh(points, size_u, size_v):
+def make_quad_mesh(points, size_u, size_v, **kwargs):
     """ Generates a mesh of quadrilateral elements.
 
     :param points: list of points
